@@ -80,6 +80,10 @@ func (tc *templateChecker) checkTemplate(node ast.Node) {
 	if parent, ok := node.(ast.ParentNode); ok {
 		tc.recurse(parent)
 	}
+	if _, ok := node.(*ast.ForNode); ok {
+		// the loop variable goes out of scope with its loop
+		tc.forVars = tc.forVars[:len(tc.forVars)-1]
+	}
 }
 
 // checkLet ensures that the let variable has an allowed name.
